@@ -15,6 +15,7 @@ def knuth_events(u, v, w):
     vd = [(vn >> (w * i)) & (B - 1) for i in range(n)]
     ud = [(un >> (w * i)) & (B - 1) for i in range(m + n + 1)]
     addback, corr, qmax = [], 0, False
+    d3min, clamp_d3min = None, None
     for j in range(m, -1, -1):
         num = ud[j + n] * B + ud[j + n - 1]
         if ud[j + n] >= vd[n - 1]:
@@ -23,6 +24,13 @@ def knuth_events(u, v, w):
             rhat = num - qhat * vd[n - 1]
         else:
             qhat, rhat = divmod(num, vd[n - 1])
+        if rhat < B:
+            # distance of the first D3 comparison from a tie (also recorded for the clamped estimate, whose
+            # D3 test the crate skips: a change that adds it must get the tie right)
+            dd = abs(qhat * vd[n - 2] - (rhat * B + ud[j + n - 2]))
+            d3min = dd if d3min is None else min(d3min, dd)
+            if qhat == B - 1 and ud[j + n] >= vd[n - 1]:
+                clamp_d3min = dd if clamp_d3min is None else min(clamp_d3min, dd)
         while rhat < B and qhat * vd[n - 2] > rhat * B + ud[j + n - 2]:
             qhat -= 1
             rhat += vd[n - 1]
@@ -35,7 +43,7 @@ def knuth_events(u, v, w):
             addback.append(j)
         for i in range(n + 1):
             ud[j + i] = (cur >> (w * i)) & (B - 1)
-    return {"addback": addback, "corr": corr, "qmax": qmax}
+    return {"addback": addback, "corr": corr, "qmax": qmax, "d3min": d3min, "clamp_d3min": clamp_d3min}
 
 
 def extreme_operand(rng, w, ln):
@@ -69,3 +77,110 @@ def addback_pairs(rng, w, n, want, tries=4000):
     res = late[:want]
     res += out[:max(0, want - len(res))]
     return res
+
+
+def _digits_val(ds, w):
+    return sum(d << (w * i) for i, d in enumerate(ds))
+
+
+def d3_boundary_pairs(rng, w, N, want, tries=3000):
+    """(u, v) with u < 2^(w*N), v of >= 2 digits, constructed so that at some step of Algorithm D the
+    refinement test `q_hat * v[n-2]  vs  r_hat * b + u[j+n-2]` is within 1 of an exact tie - in the ordinary
+    branch (first or second iteration of the test) or for the clamped estimate q_hat = b-1 (u[j+n] == v[n-1]).
+    Construction: choose the normalised divisor and the 3-digit window, then embed the window as the
+    partial remainder R < v followed by the next dividend digits: u = R * b^(j+1) + low (shifted back by the
+    normalisation amount).  Every pair is confirmed by the exact simulation before it is returned."""
+    B = 1 << w
+    out, seen = [], set()
+    if N < 2:
+        return out
+    for _ in range(tries):
+        if len(out) >= want:
+            break
+        n = rng.choice([2, 2, 3, max(2, N - 1), N, rng.randrange(2, N + 1)]) if N > 2 else 2
+        if n > N:
+            continue
+        s = rng.choice([0, 0, 1, w - 1, rng.randrange(w)])
+        full = (n == N)       # divisor as long as the type: single step, window = top of u << s (top digit < 2^s)
+        if full and s == 0:
+            s = rng.choice([1, 2, w - 1, rng.randrange(1, w)])
+        v1 = rng.choice([B // 2, B // 2 + 1, B - 1, B // 2 + rng.randrange(1, 16), (B // 2) | rng.randrange(B // 2)])
+        v0 = rng.choice([0, 1, B - 1, B // 2, min(B - 1, v1 + 1), v1 - 1, v1, rng.randrange(B), min(B - 1, v1 + rng.randrange(1, 6))])
+        vd = [rng.choice([0, 1, B - 1, rng.randrange(B)]) for _ in range(n - 2)] + [v0, v1]
+        vd[0] &= ~((1 << s) - 1) & (B - 1)
+        v0 = vd[n - 2]
+        if n == 2 and s and v0 != vd[0]:
+            continue
+        delta = rng.choice([-1, 0, 0, 1])
+        mode = rng.choice(["clamp", "clamp", "first", "second"]) if not full else rng.choice(["first", "second"])
+        if full and n == 2:
+            delta = 0
+        if mode == "clamp":
+            T = (B - 1) * v0 - delta
+            if T < 0:
+                continue
+            rhat, u0 = divmod(T, B)
+            u2, u1 = v1, rhat - v1
+            if not (0 <= u1 < B and rhat < B):
+                continue
+        else:
+            qhat = rng.choice([B - 1, B - 2, B // 2, 1, 2, rng.randrange(1, B)]) if not full else rng.randrange(1, 1 << min(w, s + 1))
+            qeff = qhat if mode == "first" else qhat - 1
+            if qeff < 0:
+                continue
+            T = qeff * v0 - delta
+            if T < 0:
+                continue
+            r_eff, u0 = divmod(T, B)
+            rhat = r_eff if mode == "first" else r_eff - v1
+            if not (0 <= rhat < v1):
+                continue
+            u2, u1 = divmod(qhat * v1 + rhat, B)
+            if u2 >= v1:
+                continue
+        vn = _digits_val(vd, w)
+        if full:
+            if u2 >> s:
+                continue
+            ud = [rng.choice([0, B - 1, rng.randrange(B)]) for _ in range(n - 2)] + [u0, u1, u2]
+            un = _digits_val(ud, w)
+            if n >= 3:
+                un &= ~((1 << s) - 1)
+            elif un & ((1 << s) - 1):
+                continue
+            u, v = un >> s, vn >> s
+            if v < B or u <= v or u >> (w * N):
+                continue
+            ev = knuth_events(u, v, w)
+            if ev and ev["d3min"] is not None and ev["d3min"] <= 1 and (u, v) not in seen:
+                seen.add((u, v))
+                out.append((u, v))
+            continue
+        jmax = N - n - 1
+        if jmax < 0:
+            continue
+        j = rng.choice([0, jmax, rng.randrange(jmax + 1)])
+        if n >= 3:
+            Rd = [rng.choice([0, B - 1, rng.randrange(B)]) for _ in range(n - 3)] + [u0, u1, u2]
+            low = [rng.choice([0, 1, B - 1, rng.randrange(B)]) for _ in range(j + 1)]
+        else:
+            Rd = [u1, u2]
+            low = [rng.choice([0, 1, B - 1, rng.randrange(B)]) for _ in range(j)] + [u0]
+        Rn = _digits_val(Rd, w)
+        if Rn >= vn:
+            continue
+        un = (Rn << (w * (j + 1))) + _digits_val(low, w)
+        if un & ((1 << s) - 1):
+            un &= ~((1 << s) - 1)
+        u, v = un >> s, vn >> s
+        if v < B or u <= v or u >> (w * N):
+            continue
+        ev = knuth_events(u, v, w)
+        if not ev or ev["d3min"] is None or ev["d3min"] > 1:
+            continue
+        if mode == "clamp" and (ev["clamp_d3min"] is None or ev["clamp_d3min"] > 1):
+            continue
+        if (u, v) not in seen:
+            seen.add((u, v))
+            out.append((u, v))
+    return out
